@@ -194,7 +194,7 @@ func (a *AuditInner) CreateMultipartUpload(ctx context.Context, b storage.Bucket
 		return nil, err
 	}
 	n := a.nextUp.Add(1)
-	return &storage.InitiateMultipartUploadResult{UploadId: storage.MustNewUploadId("up-" + itoa(n))}, nil
+	return &storage.InitiateMultipartUploadResult{UploadId: storage.MustNewUploadId("up-" + auditItoa(n))}, nil
 }
 func (a *AuditInner) UploadPart(ctx context.Context, b storage.BucketName, k storage.ObjectKey, u storage.UploadId, p int32, d io.Reader, c *storage.ChecksumInput) (*storage.UploadPartResult, error) {
 	if err := a.do(ctx, "UploadPart"); err != nil {
@@ -230,7 +230,7 @@ func (a *AuditInner) ListParts(ctx context.Context, b storage.BucketName, k stor
 	return &storage.ListPartsResult{}, nil
 }
 
-func itoa(n int64) string {
+func auditItoa(n int64) string {
 	if n == 0 {
 		return "0"
 	}
